@@ -133,7 +133,7 @@ fn ord3(x: &V, y: &V) -> Option<std::cmp::Ordering> {
         (V::Int(a), V::Int(b)) => Some(a.cmp(b)),
         (V::Float(a), V::Float(b)) => a.partial_cmp(b),
         (V::Str(a), V::Str(b)) => Some(a.as_bytes().cmp(b.as_bytes())),
-        (V::Null, V::Null) => Some(std::cmp::Ordering::Equal),
+        // (null has no order: `null <= null` does not hold - C13; the pinned tree ordered it until the repair in /repo)
         _ => None,
     }
 }
